@@ -65,7 +65,8 @@ func safeDivide(
 
 	after, err := safeCalcDistributionQuantity(distribution)
 	if err != nil {
-		return err
+		// the total produced by the divider does not even fit the type
+		return ErrDividerBad
 	}
 
 	if after == 0 {
